@@ -264,6 +264,7 @@ func verifLemmaReservationStep(req models.ChfConvergedChargingChargingDataReques
 //@   requires ue != nil && ue.RatingClient != nil
 //@   requires [C20] factory.SpecValidated(factory.ChfConfig)
 //@   ensures sur != nil && !rating.GhostFailed ==> result == rating.GhostUnitCost[uint32(rg)]
+//@   ensures old(rating.GhostFailed) ==> rating.GhostFailed
 //@   show rating.GhostUnitCost[uint32(rg)]
 //@   modifies field(sur, ServiceRating), field(sur, DestinationRealm), field(sur, DestinationHost), global(&rating.GhostRequests), global(&rating.GhostFailed)
 
@@ -302,3 +303,135 @@ var ghostHttpWrites int
 //@   ensures ghostHttpWrites == old(ghostHttpWrites)+1
 //@   ensures (ghostHttpStatus == 204 && !ghostHttpBody) || (ghostHttpStatus >= 400 && ghostHttpStatus < 500 && ghostHttpBody)
 //@   ensures old(specUe(chargingdata).Cdr[chargingSessionId]) == nil ==> ghostHttpStatus >= 400
+
+// ---- scenario lemmas (C01, C06): the reservation step, one path family at a time -----------------------
+// The same bounded setting as verifLemmaReservationStep, with preconditions that select the rating mode and
+// the branch taken, so that each conservation clause is decided.
+// @ lemma verifLemmaDebitFinal [C01 C06]
+// @   bounded one multiple-unit-usage entry with one online-charging used-unit container and no trigger; scenario: rating group known, debit mode (final usage report)
+// @   inline-calls sessionChargingReservation
+// @   requires verif_held(&specUe(req).CULock)
+// @   requires factory.SpecValidated(factory.ChfConfig)
+// @   requires chf_context.GetSelf().AbmfCfg != nil && chf_context.GetSelf().RatingCfg != nil
+// @   requires len(req.MultipleUnitUsage) == 1 && len(req.MultipleUnitUsage[0].UsedUnitContainer) == 1 && len(req.Triggers) == 0
+// @   requires req.MultipleUnitUsage[0].UsedUnitContainer[0].QuotaManagementIndicator == models.QuotaManagementIndicator_ONLINE_CHARGING
+// @   requires specUe(req).RatingType[specRg(req)] == charging_datatype.REQ_SUBTYPE_RESERVE || specUe(req).RatingType[specRg(req)] == charging_datatype.REQ_SUBTYPE_DEBIT
+// @   requires specUsed(req) >= 0 && specUsed(req)*specCost(req) < 1<<32
+// @   requires req.MultipleUnitUsage[0].RequestedUnit == nil || (req.MultipleUnitUsage[0].RequestedUnit.TotalVolume >= 0 && int64(req.MultipleUnitUsage[0].RequestedUnit.TotalVolume)*specCost(req) < 1<<32)
+// @   requires chf_context.GhostKnown[req.SubscriberIdentifier]
+// @   requires abmf.GhostBalance != nil && rating.GhostUnitCost != nil && !abmf.GhostFailed && !rating.GhostFailed
+// @   requires abmf.GhostBalance[uint32(specRg(req))] >= 0 && abmf.GhostBalance[uint32(specRg(req))] < 1<<62 && specUe(req).ReservedQuota[specRg(req)] > -(1<<62) && specUe(req).ReservedQuota[specRg(req)] < 1<<62
+// @   requires chf_context.SpecHasRatingGroup(specUe(req), specRg(req)) && specUe(req).RatingType[specRg(req)] == charging_datatype.REQ_SUBTYPE_DEBIT
+// @   ensures !abmf.GhostFailed && !rating.GhostFailed ==> abmf.GhostBalance[uint32(specRg(req))]+specUe(req).ReservedQuota[specRg(req)] == old(abmf.GhostBalance[uint32(specRg(req))])+old(specUe(req).ReservedQuota[specRg(req)])-specPrice(req)
+// @   ensures !abmf.GhostFailed && !rating.GhostFailed ==> specUe(req).ReservedQuota[specRg(req)] == 0
+func verifLemmaDebitFinal(req models.ChfConvergedChargingChargingDataRequest) ([]models.MultipleUnitInformation, bool) {
+	return sessionChargingReservation(req)
+}
+
+// @ lemma verifLemmaReserveKnownHeld [C01 C06]
+// @   bounded one multiple-unit-usage entry with one online-charging used-unit container and no trigger; scenario: rating group known, reserve mode, the held reservation covers the reported usage
+// @   inline-calls sessionChargingReservation
+// @   requires verif_held(&specUe(req).CULock)
+// @   requires factory.SpecValidated(factory.ChfConfig)
+// @   requires chf_context.GetSelf().AbmfCfg != nil && chf_context.GetSelf().RatingCfg != nil
+// @   requires len(req.MultipleUnitUsage) == 1 && len(req.MultipleUnitUsage[0].UsedUnitContainer) == 1 && len(req.Triggers) == 0
+// @   requires req.MultipleUnitUsage[0].UsedUnitContainer[0].QuotaManagementIndicator == models.QuotaManagementIndicator_ONLINE_CHARGING
+// @   requires specUe(req).RatingType[specRg(req)] == charging_datatype.REQ_SUBTYPE_RESERVE || specUe(req).RatingType[specRg(req)] == charging_datatype.REQ_SUBTYPE_DEBIT
+// @   requires specUsed(req) >= 0 && specUsed(req)*specCost(req) < 1<<32
+// @   requires req.MultipleUnitUsage[0].RequestedUnit == nil || (req.MultipleUnitUsage[0].RequestedUnit.TotalVolume >= 0 && int64(req.MultipleUnitUsage[0].RequestedUnit.TotalVolume)*specCost(req) < 1<<32)
+// @   requires chf_context.GhostKnown[req.SubscriberIdentifier]
+// @   requires abmf.GhostBalance != nil && rating.GhostUnitCost != nil && !abmf.GhostFailed && !rating.GhostFailed
+// @   requires abmf.GhostBalance[uint32(specRg(req))] >= 0 && abmf.GhostBalance[uint32(specRg(req))] < 1<<62 && specUe(req).ReservedQuota[specRg(req)] > -(1<<62) && specUe(req).ReservedQuota[specRg(req)] < 1<<62
+// @   requires chf_context.SpecHasRatingGroup(specUe(req), specRg(req)) && specUe(req).RatingType[specRg(req)] == charging_datatype.REQ_SUBTYPE_RESERVE
+// @   requires specUe(req).ReservedQuota[specRg(req)] > specPrice(req)
+// @   ensures !abmf.GhostFailed && !rating.GhostFailed ==> abmf.GhostBalance[uint32(specRg(req))]+specUe(req).ReservedQuota[specRg(req)] == old(abmf.GhostBalance[uint32(specRg(req))])+old(specUe(req).ReservedQuota[specRg(req)])-specPrice(req)
+// @   ensures [C06] !abmf.GhostFailed && !rating.GhostFailed ==> abmf.GhostBalance[uint32(specRg(req))] >= 0
+// @   ensures !abmf.GhostFailed && !rating.GhostFailed ==> int64(specUe(req).UnitCost[specRg(req)]) == specCost(req)
+// @   ensures !abmf.GhostFailed && !rating.GhostFailed ==> abmf.GhostBalance[uint32(specRg(req))] == old(abmf.GhostBalance[uint32(specRg(req))])
+// @   ensures !abmf.GhostFailed && !rating.GhostFailed ==> specUe(req).ReservedQuota[specRg(req)] == old(specUe(req).ReservedQuota[specRg(req)])-specPrice(req)
+// @   show specUe(req).ReservedQuota[specRg(req)]
+// @   show old(specUe(req).ReservedQuota[specRg(req)])
+// @   show abmf.GhostBalance[uint32(specRg(req))]
+// @   show old(abmf.GhostBalance[uint32(specRg(req))])
+// @   show specPrice(req)
+// @   show specCost(req)
+// @   show specUsed(req)
+// @   show specUe(req).UnitCost[specRg(req)]
+// @   show abmf.GhostRequests - old(abmf.GhostRequests)
+func verifLemmaReserveKnownHeld(req models.ChfConvergedChargingChargingDataRequest) ([]models.MultipleUnitInformation, bool) {
+	return sessionChargingReservation(req)
+}
+
+// @ lemma verifLemmaReserveKnownNeed [C01 C06]
+// @   bounded one multiple-unit-usage entry with one online-charging used-unit container and no trigger; scenario: rating group known, reserve mode, a new reservation is needed
+// @   inline-calls sessionChargingReservation
+// @   requires verif_held(&specUe(req).CULock)
+// @   requires factory.SpecValidated(factory.ChfConfig)
+// @   requires chf_context.GetSelf().AbmfCfg != nil && chf_context.GetSelf().RatingCfg != nil
+// @   requires len(req.MultipleUnitUsage) == 1 && len(req.MultipleUnitUsage[0].UsedUnitContainer) == 1 && len(req.Triggers) == 0
+// @   requires req.MultipleUnitUsage[0].UsedUnitContainer[0].QuotaManagementIndicator == models.QuotaManagementIndicator_ONLINE_CHARGING
+// @   requires specUe(req).RatingType[specRg(req)] == charging_datatype.REQ_SUBTYPE_RESERVE || specUe(req).RatingType[specRg(req)] == charging_datatype.REQ_SUBTYPE_DEBIT
+// @   requires specUsed(req) >= 0 && specUsed(req)*specCost(req) < 1<<32
+// @   requires req.MultipleUnitUsage[0].RequestedUnit == nil || (req.MultipleUnitUsage[0].RequestedUnit.TotalVolume >= 0 && int64(req.MultipleUnitUsage[0].RequestedUnit.TotalVolume)*specCost(req) < 1<<32)
+// @   requires chf_context.GhostKnown[req.SubscriberIdentifier]
+// @   requires abmf.GhostBalance != nil && rating.GhostUnitCost != nil && !abmf.GhostFailed && !rating.GhostFailed
+// @   requires abmf.GhostBalance[uint32(specRg(req))] >= 0 && abmf.GhostBalance[uint32(specRg(req))] < 1<<62 && specUe(req).ReservedQuota[specRg(req)] > -(1<<62) && specUe(req).ReservedQuota[specRg(req)] < 1<<62
+// @   requires chf_context.SpecHasRatingGroup(specUe(req), specRg(req)) && specUe(req).RatingType[specRg(req)] == charging_datatype.REQ_SUBTYPE_RESERVE
+// @   requires specUe(req).ReservedQuota[specRg(req)] <= specPrice(req)
+// @   ensures !abmf.GhostFailed && !rating.GhostFailed ==> abmf.GhostBalance[uint32(specRg(req))]+specUe(req).ReservedQuota[specRg(req)] == old(abmf.GhostBalance[uint32(specRg(req))])+old(specUe(req).ReservedQuota[specRg(req)])-specPrice(req)
+// @   ensures [C06] !abmf.GhostFailed && !rating.GhostFailed ==> abmf.GhostBalance[uint32(specRg(req))] >= 0
+// @   ensures [C06] !abmf.GhostFailed && !rating.GhostFailed && len(result0) == 1 && result0[0].GrantedUnit != nil && specCost(req) > 0 ==> int64(result0[0].GrantedUnit.TotalVolume)*specCost(req) <= specUe(req).ReservedQuota[specRg(req)] || result0[0].GrantedUnit.TotalVolume == 0
+// @   show specUe(req).ReservedQuota[specRg(req)]
+// @   show old(specUe(req).ReservedQuota[specRg(req)])
+// @   show abmf.GhostBalance[uint32(specRg(req))]
+// @   show old(abmf.GhostBalance[uint32(specRg(req))])
+// @   show specCost(req)
+// @   show specUsed(req)
+func verifLemmaReserveKnownNeed(req models.ChfConvergedChargingChargingDataRequest) ([]models.MultipleUnitInformation, bool) {
+	return sessionChargingReservation(req)
+}
+
+// @ lemma verifLemmaReserveNewHeld [C01 C06]
+// @   bounded one multiple-unit-usage entry with one online-charging used-unit container and no trigger; scenario: rating group not seen before (starts in reserve mode), the held reservation covers the reported usage
+// @   inline-calls sessionChargingReservation
+// @   requires verif_held(&specUe(req).CULock)
+// @   requires factory.SpecValidated(factory.ChfConfig)
+// @   requires chf_context.GetSelf().AbmfCfg != nil && chf_context.GetSelf().RatingCfg != nil
+// @   requires len(req.MultipleUnitUsage) == 1 && len(req.MultipleUnitUsage[0].UsedUnitContainer) == 1 && len(req.Triggers) == 0
+// @   requires req.MultipleUnitUsage[0].UsedUnitContainer[0].QuotaManagementIndicator == models.QuotaManagementIndicator_ONLINE_CHARGING
+// @   requires specUe(req).RatingType[specRg(req)] == charging_datatype.REQ_SUBTYPE_RESERVE || specUe(req).RatingType[specRg(req)] == charging_datatype.REQ_SUBTYPE_DEBIT
+// @   requires specUsed(req) >= 0 && specUsed(req)*specCost(req) < 1<<32
+// @   requires req.MultipleUnitUsage[0].RequestedUnit == nil || (req.MultipleUnitUsage[0].RequestedUnit.TotalVolume >= 0 && int64(req.MultipleUnitUsage[0].RequestedUnit.TotalVolume)*specCost(req) < 1<<32)
+// @   requires chf_context.GhostKnown[req.SubscriberIdentifier]
+// @   requires abmf.GhostBalance != nil && rating.GhostUnitCost != nil && !abmf.GhostFailed && !rating.GhostFailed
+// @   requires abmf.GhostBalance[uint32(specRg(req))] >= 0 && abmf.GhostBalance[uint32(specRg(req))] < 1<<62 && specUe(req).ReservedQuota[specRg(req)] > -(1<<62) && specUe(req).ReservedQuota[specRg(req)] < 1<<62
+// @   requires !chf_context.SpecHasRatingGroup(specUe(req), specRg(req))
+// @   requires specUe(req).ReservedQuota[specRg(req)] > specPrice(req)
+// @   ensures !abmf.GhostFailed && !rating.GhostFailed ==> abmf.GhostBalance[uint32(specRg(req))]+specUe(req).ReservedQuota[specRg(req)] == old(abmf.GhostBalance[uint32(specRg(req))])+old(specUe(req).ReservedQuota[specRg(req)])-specPrice(req)
+// @   ensures [C06] !abmf.GhostFailed && !rating.GhostFailed ==> abmf.GhostBalance[uint32(specRg(req))] >= 0
+func verifLemmaReserveNewHeld(req models.ChfConvergedChargingChargingDataRequest) ([]models.MultipleUnitInformation, bool) {
+	return sessionChargingReservation(req)
+}
+
+// @ lemma verifLemmaReserveNewNeed [C01 C06]
+// @   bounded one multiple-unit-usage entry with one online-charging used-unit container and no trigger; scenario: rating group not seen before (starts in reserve mode), a new reservation is needed
+// @   inline-calls sessionChargingReservation
+// @   requires verif_held(&specUe(req).CULock)
+// @   requires factory.SpecValidated(factory.ChfConfig)
+// @   requires chf_context.GetSelf().AbmfCfg != nil && chf_context.GetSelf().RatingCfg != nil
+// @   requires len(req.MultipleUnitUsage) == 1 && len(req.MultipleUnitUsage[0].UsedUnitContainer) == 1 && len(req.Triggers) == 0
+// @   requires req.MultipleUnitUsage[0].UsedUnitContainer[0].QuotaManagementIndicator == models.QuotaManagementIndicator_ONLINE_CHARGING
+// @   requires specUe(req).RatingType[specRg(req)] == charging_datatype.REQ_SUBTYPE_RESERVE || specUe(req).RatingType[specRg(req)] == charging_datatype.REQ_SUBTYPE_DEBIT
+// @   requires specUsed(req) >= 0 && specUsed(req)*specCost(req) < 1<<32
+// @   requires req.MultipleUnitUsage[0].RequestedUnit == nil || (req.MultipleUnitUsage[0].RequestedUnit.TotalVolume >= 0 && int64(req.MultipleUnitUsage[0].RequestedUnit.TotalVolume)*specCost(req) < 1<<32)
+// @   requires chf_context.GhostKnown[req.SubscriberIdentifier]
+// @   requires abmf.GhostBalance != nil && rating.GhostUnitCost != nil && !abmf.GhostFailed && !rating.GhostFailed
+// @   requires abmf.GhostBalance[uint32(specRg(req))] >= 0 && abmf.GhostBalance[uint32(specRg(req))] < 1<<62 && specUe(req).ReservedQuota[specRg(req)] > -(1<<62) && specUe(req).ReservedQuota[specRg(req)] < 1<<62
+// @   requires !chf_context.SpecHasRatingGroup(specUe(req), specRg(req))
+// @   requires specUe(req).ReservedQuota[specRg(req)] <= specPrice(req)
+// @   ensures !abmf.GhostFailed && !rating.GhostFailed ==> abmf.GhostBalance[uint32(specRg(req))]+specUe(req).ReservedQuota[specRg(req)] == old(abmf.GhostBalance[uint32(specRg(req))])+old(specUe(req).ReservedQuota[specRg(req)])-specPrice(req)
+// @   ensures [C06] !abmf.GhostFailed && !rating.GhostFailed ==> abmf.GhostBalance[uint32(specRg(req))] >= 0
+func verifLemmaReserveNewNeed(req models.ChfConvergedChargingChargingDataRequest) ([]models.MultipleUnitInformation, bool) {
+	return sessionChargingReservation(req)
+}
+
